@@ -121,6 +121,7 @@ def run(chk):
     r5_definite_failures(chk, repo)
     r6_swallow_audit(chk, repo)
     r7_relay(chk, repo)
+    r8_idempotent_close(chk, repo)
 
 
 # ------------------------------------------------------------------------------------ R1
@@ -674,8 +675,56 @@ def r7_relay(chk, repo):
     okr = isinstance(root, ast.Name) and root.id == relay and (not isinstance(e, ast.Call) or norm(e.func) == f"{relay}.with_traceback")
     chk.check(okr, "C06.R7", f, reraise, "the re-raised object is not the relayed exception itself", site_text="raise exc.with_traceback(traceback)")
 
+# ------------------------------------------------------------------------------------ R8
+def r8_idempotent_close(chk, repo):
+    chk.describe("C06.R8", "closing savers on a failure path cannot itself fail on savers that are already closed (a second close raises RuntimeError and would replace the original exception on its way to the caller)")
+    R = "C06.R8"
+    po = repo.func("PostOffice.kill_spies", "strax/processors/post_office.py")
+    calls = [c for c in calls_in(po.node) if isinstance(c.func, ast.Attribute) and c.func.attr == "kill"]
+    chk.check(len(calls) == 1, R, po, None, "kill_spies does not kill every spy", site_text="PostOffice.kill_spies: spy.kill(reason) for every spy")
+    spy = repo.cls("SaverSpy")
+    kill = None
+    for c in repo.mro(spy):
+        if "kill" in c.methods:
+            kill = c.methods["kill"]
+            break
+    chk.need(kill is not None, "C06.R8: no kill method on SaverSpy or its bases")
+    # does the kill path reach self.saver.close() unguarded?
+    def reaches_close(f, guarded, depth=3):
+        cfg = cfg_of(f)
+        bad = []
+        for n in cfg.stmt_nodes():
+            if isinstance(n.stmt, COMPOUND):
+                continue
+            for c in own_calls(n.stmt):
+                nm = call_name(c) or ""
+                g = guarded or ("self.saver.closed", False) in cfg.guard_facts(n)
+                if nm == "self.saver.close":
+                    if not g:
+                        bad.append((f, n.stmt))
+                elif nm.startswith("self.") and nm.count(".") == 1 and depth > 0:
+                    m = None
+                    for cl in repo.mro(spy):
+                        if nm.split(".")[1] in cl.methods:
+                            m = cl.methods[nm.split(".")[1]]
+                            break
+                    if m is not None and m is not f:
+                        bad += reaches_close(m, g, depth - 1)
+        return bad
+    bad = reaches_close(kill, False)
+    chk.check(not bad, R, kill, bad[0][1] if bad else None, "SaverSpy.kill closes its saver without checking whether it is already closed: when a failure happens after some saved data type is complete, kill_spies() raises RuntimeError('... saver already closed') inside the except block and the caller never sees the original exception",
+              site_text="SaverSpy.kill: saver.close() only if not already closed", site={"function": kill.qualname, "rule": "idempotent close on failure paths"})
+    sv = repo.func("Saver.save_from", "strax/storage/common.py")
+    scfg = cfg_of(sv)
+    fin = [n for n in scfg.stmt_nodes() if not isinstance(n.stmt, COMPOUND) and enclosing(n.stmt, (ast.Try,)) is not None and any(call_name(c) == "self.close" for c in own_calls(n.stmt)) and any(n.stmt is x or any(n.stmt is y for y in ast.walk(x)) for t in walk_body(sv.node) if isinstance(t, ast.Try) for x in t.finalbody)]
+    chk.check(bool(fin) and all(("self.closed", False) in scfg.guard_facts(n) for n in fin), R, sv, None, "the saver thread's final close is not guarded by `not self.closed`", site_text="Saver.save_from: finally closes only if not closed")
+
 
 WITNESSES = [
+    W("kill closes savers that are already closed (the original defect)", "C06.R8", SINGLE,
+      "if self.saver.closed:\n            return\n        self.close()", "self.close()"),
+    W("saver thread closes twice", "C06.R8", "strax/storage/common.py",
+      "finally:\n            if not self.closed:\n                try:", "finally:\n            if True:\n                try:"),
     W("narrow _send_from's handler", "C06.R1", MAILBOX,
       "except Exception as e:\n            self.kill_from_exception(e)\n        else:",
       "except ValueError as e:\n            self.kill_from_exception(e)\n        else:"),
